@@ -25,6 +25,7 @@ fn seq<const N: usize>(last: u32) -> [u32; N] {
 macro_rules! ef_get {
     ($name:ident, $n:expr, $last:expr, $bmi2:path) => {
         #[kani::proof]
+        #[kani::stub(alloc::vec::Vec::push, crate::stubs::push_no_grow)]
         #[kani::unwind(9)]
         #[kani::stub(succinctly::util::simd::x86::has_fast_bmi2, $bmi2)]
         #[kani::stub(core::arch::x86_64::_pdep_u64, models::pdep_u64)]
@@ -63,6 +64,7 @@ ef_get!(c03_get_n8_last7, 8, 7, no);
 macro_rules! ef_pred {
     ($name:ident, $n:expr, $last:expr) => {
         #[kani::proof]
+        #[kani::stub(alloc::vec::Vec::push, crate::stubs::push_no_grow)]
         #[kani::unwind(9)]
         #[kani::stub(succinctly::util::broadword::select_in_word, select_in_word_contract)]
         #[kani::stub(std_detect::detect::__is_feature_detected::avx2, yes)]
@@ -95,6 +97,7 @@ ef_pred!(c03_pred_n8_last1000, 8, 1000);
 macro_rules! ef_iter {
     ($name:ident, $n:expr, $last:expr) => {
         #[kani::proof]
+        #[kani::stub(alloc::vec::Vec::push, crate::stubs::push_no_grow)]
         #[kani::unwind(9)]
         #[kani::stub(succinctly::util::simd::x86::has_fast_bmi2, no)]
         #[kani::stub(std_detect::detect::__is_feature_detected::avx2, yes)]
@@ -173,6 +176,7 @@ macro_rules! apply_op {
 macro_rules! ef_cursor_step {
     ($name:ident, $n:expr, $last:expr, $op:expr, $maxk:expr) => {
         #[kani::proof]
+        #[kani::stub(alloc::vec::Vec::push, crate::stubs::push_no_grow)]
         #[kani::unwind(9)]
         #[kani::stub(succinctly::util::broadword::select_in_word, select_in_word_contract)]
         #[kani::stub(std_detect::detect::__is_feature_detected::avx2, yes)]
@@ -225,6 +229,7 @@ ef_cursor_step!(c03_cursor_advby_n6_last300, 6, 300, 2, 8);
 macro_rules! ef_cursor_exhausted {
     ($name:ident, $n:expr, $last:expr, $maxk:expr) => {
         #[kani::proof]
+        #[kani::stub(alloc::vec::Vec::push, crate::stubs::push_no_grow)]
         #[kani::unwind(9)]
         #[kani::stub(succinctly::util::broadword::select_in_word, select_in_word_contract)]
         #[kani::stub(std_detect::detect::__is_feature_detected::avx2, yes)]
@@ -295,6 +300,7 @@ fn skeleton300() -> [u32; 300] {
 macro_rules! ef_cursor_skeleton {
     ($name:ident, $op:expr, $maxk:expr) => {
         #[kani::proof]
+        #[kani::stub(alloc::vec::Vec::push, crate::stubs::push_no_grow)]
         #[kani::unwind(9)]
         #[kani::stub(succinctly::util::broadword::select_in_word, select_in_word_contract)]
         #[kani::stub(std_detect::detect::__is_feature_detected::avx2, yes)]
@@ -330,6 +336,7 @@ ef_cursor_skeleton!(c03_cursor_skeleton300_advby, 2, 70);
 
 /// get / predecessor on the same skeleton: every index, every query value.
 #[kani::proof]
+#[kani::stub(alloc::vec::Vec::push, crate::stubs::push_no_grow)]
 #[kani::unwind(9)]
 #[kani::stub(succinctly::util::broadword::select_in_word, select_in_word_contract)]
 #[kani::stub(std_detect::detect::__is_feature_detected::avx2, yes)]
@@ -357,6 +364,7 @@ fn c03_get_pred_skeleton300() {
 
 /// `cursor()` is `cursor_from(0)`; the empty sequence answers None everywhere.
 #[kani::proof]
+#[kani::stub(alloc::vec::Vec::push, crate::stubs::push_no_grow)]
 #[kani::unwind(9)]
 #[kani::stub(succinctly::util::simd::x86::has_fast_bmi2, no)]
 #[kani::stub(std_detect::detect::__is_feature_detected::avx2, yes)]
@@ -383,6 +391,7 @@ fn c03_cursor0_and_empty() {
 }
 
 #[kani::proof]
+#[kani::stub(alloc::vec::Vec::push, crate::stubs::push_no_grow)]
 #[kani::unwind(9)]
 #[kani::stub(succinctly::util::simd::x86::has_fast_bmi2, no)]
 #[kani::stub(std_detect::detect::__is_feature_detected::avx2, yes)]
